@@ -2,6 +2,8 @@ package rules
 
 import (
 	"go/ast"
+	"go/constant"
+	"go/token"
 	"go/types"
 
 	"gnetlint/core"
@@ -94,7 +96,7 @@ func runC14_7(c *core.Ctx) {
 func init() {
 	register(&core.Rule{ID: "C15.6", Prop: "C15", MinSites: 1,
 		Desc: "the source-address hash sees the address only through its string: in sourceAddrHashLoadBalancer.next the address parameter is used solely as the receiver of String() – no type assertion, field or byte-level view of it can make two addresses that print alike land on different loops",
-		Run: runC15_6})
+		Run:  runC15_6})
 }
 
 func runC15_6(c *core.Ctx) {
@@ -159,7 +161,7 @@ func exprStr2(n ast.Node) string {
 func init() {
 	register(&core.Rule{ID: "C14.8", Prop: "C14", MinSites: 2, Applies: func(c core.Config) bool { return c.HasTag("gc_opt") },
 		Desc: "per-row bookkeeping names one row: wherever the matrix registry tests connCounts[X] to decide between clearing table[Y] and table[Y][…], X and Y are the same expression (the row of the entry being removed or moved), not the insertion cursor",
-		Run: runC14_8})
+		Run:  runC14_8})
 }
 
 func runC14_8(c *core.Ctx) {
@@ -224,4 +226,95 @@ func runC14_8(c *core.Ctx) {
 			return true
 		})
 	}
+}
+
+func init() {
+	register(&core.Rule{ID: "C20.5", Prop: "C20", MinSites: 1,
+		Desc: "the floor is taken without leaving the int range: after the smear cascade the variable holds 2^(k+1)-1, up to the maximum int; FloorToPowerOfTwo's result uses it only under subtraction, right shift or bit operations – adding a positive constant to it, negating it or shifting it left overflows for every argument from 2^(W-2) on",
+		Run:  runC20_5})
+}
+
+func runC20_5(c *core.Ctx) {
+	f := getFn(c, "pkg/math", "FloorToPowerOfTwo")
+	if f == nil {
+		return
+	}
+	n := f.param(0)
+	// last statement of the cascade: n |= n >> k
+	var last ast.Node
+	ast.Inspect(f.Decl.Body, func(x ast.Node) bool {
+		if as, ok := x.(*ast.AssignStmt); ok && as.Tok == token.OR_ASSIGN && len(as.Lhs) == 1 && flow.ObjOf(f.Info, as.Lhs[0]) == types.Object(n) {
+			last = as
+		}
+		return true
+	})
+	if last == nil {
+		c.Undecided(f.Name, "smear cascade", f.Decl.Pos(), "no `n |= n >> k` cascade found")
+		return
+	}
+	mentionsN := func(e ast.Expr) bool {
+		found := false
+		ast.Inspect(e, func(x ast.Node) bool {
+			if id, ok := x.(*ast.Ident); ok && f.Info.Uses[id] == types.Object(n) {
+				found = true
+			}
+			return true
+		})
+		return found
+	}
+	var bad ast.Node
+	why := ""
+	ast.Inspect(f.Decl.Body, func(x ast.Node) bool {
+		if x == nil || x.Pos() < last.End() || bad != nil {
+			return true
+		}
+		switch y := x.(type) {
+		case *ast.BinaryExpr:
+			switch y.Op {
+			case token.ADD:
+				xn, yn := mentionsN(y.X), mentionsN(y.Y)
+				// n + c / c + n with c a positive constant, or n + n
+				if xn && yn {
+					bad, why = y, "adds the smeared value to itself"
+				} else if xn || yn {
+					other := y.Y
+					if yn {
+						other = y.X
+					}
+					if cv := flow.ConstOf(f.Info, other); cv == nil || constant.Sign(cv) > 0 {
+						// only a direct use of n (not of n>>k) can reach MaxInt
+						direct := y.X
+						if yn {
+							direct = y.Y
+						}
+						if id, ok := ast.Unparen(direct).(*ast.Ident); ok && f.Info.Uses[id] == types.Object(n) {
+							bad, why = y, "adds to the smeared value, which is the maximum int for arguments from 2^(W-2) on"
+						}
+					}
+				}
+			case token.SHL, token.MUL:
+				if mentionsN(y.X) {
+					bad, why = y, "shifts/multiplies the smeared value upwards"
+				}
+			}
+		case *ast.UnaryExpr:
+			if y.Op == token.SUB && mentionsN(y.X) {
+				bad, why = y, "negates the smeared value"
+			}
+		case *ast.IncDecStmt:
+			if y.Tok == token.INC && flow.ObjOf(f.Info, y.X) == types.Object(n) {
+				bad, why = y, "increments the smeared value"
+			}
+		case *ast.AssignStmt:
+			if (y.Tok == token.ADD_ASSIGN || y.Tok == token.SHL_ASSIGN || y.Tok == token.MUL_ASSIGN) && len(y.Lhs) == 1 && flow.ObjOf(f.Info, y.Lhs[0]) == types.Object(n) {
+				bad, why = y, "increases the smeared value in place"
+			}
+		}
+		return true
+	})
+	if bad != nil {
+		c.Violate(f.Name, "result stays inside the int range", bad.Pos(), "after the cascade the expression "+exprStr2(bad)+" "+why+": the intermediate wraps around and FloorToPowerOfTwo returns a negative number (−2^(W-2)) instead of 2^(W-2) for every argument with the top value bit set")
+		return
+	}
+	c.Ok(f.Name, "result stays inside the int range", last.Pos(), "only subtraction, right shift and bit operations follow the cascade")
 }
